@@ -162,6 +162,17 @@ def run_c15(tier, seed):
             continue
         validated += 1
         distinct.add(key)
+    # a forced schedule: Stop is held inside its "close the registered connections" phase (the Close of one connection is gated) while
+    # another, already accepted TLS client completes its handshake and registers
+    srows, so = run_mode(chk, "stoprace", ["3" if tier == "quick" else "20"], timeout=300)
+    for r in srows:
+        if r.get("error"):
+            continue
+        if r.get("problems"):
+            chk.violation("stop-vs-registration", "a TLS client accepted before Stop and registered while Stop was closing another connection: %s" % " ; ".join(r["problems"])[:500], dict(row=r))
+        else:
+            validated += 1
+    chk.coverage["stop_vs_registration_rounds"] = len(srows)
     if len(rows) != len(lines) and not chk.violations:
         chk.violation("incomplete", "%d of %d sequences produced a result" % (len(rows), len(lines)), dict(), True)
     if broken and not chk.violations:
